@@ -4,7 +4,7 @@ Walks the AST of every anchored file and lists
   * every call of a densifying method/function: .todense() .maybe_densify() .asnumpy()/asnumpy()
     .toarray() .__array__(), and of the allocating ndarray methods .repeat() .tile();
   * every call of a NumPy allocator (np.zeros ones full empty arange indices eye identity tile repeat
-    *_like meshgrid tri linspace bincount outer kron, mgrid/ogrid subscripts) -- ALL of them, not only
+    *_like meshgrid tri linspace bincount outer kron broadcast_to broadcast_arrays argsort, mgrid/ogrid subscripts) -- ALL of them, not only
     those whose argument text mentions `shape`/`size`/a product (a product of extents may hide behind
     a local name such as `n_col`, `rows * cols`, `group_size`); only calls whose size argument is a
     literal constant (`0`, `(0,)`, `()`, `(2, 0)`) are left out;
@@ -37,7 +37,7 @@ DENSIFY_ATTRS = {"todense", "maybe_densify", "asnumpy", "toarray", "__array__",
 DENSIFY_NAMES = {"asnumpy", "_todense"}
 ALLOC = {"zeros", "ones", "full", "empty", "arange", "indices", "eye", "identity", "tile", "repeat",
          "zeros_like", "ones_like", "full_like", "empty_like", "meshgrid", "tri", "linspace", "bincount",
-         "outer", "kron", "broadcast_to", "broadcast_arrays"}
+         "outer", "kron", "broadcast_to", "broadcast_arrays", "argsort"}
 NP_NAMES = {"np", "numpy"}
 
 
